@@ -7,6 +7,7 @@ import (
 	"io/fs"
 	"os"
 	"sort"
+	"strings"
 	"time"
 
 	"github.com/clbanning/mxj/v2/verifsim"
@@ -345,6 +346,8 @@ func (d *SimDisk) RealPath(op, name string) (string, error) {
 	d.c.C["disk_events"]++
 	p := d.realPathOf(name)
 	switch op {
+	case "tempdir":
+		return d.realDir, nil
 	case "open":
 		if e := d.OpenErr[name]; e != nil {
 			d.c.C["fault.open_error"]++
@@ -551,6 +554,21 @@ func (d *SimDisk) Remove(name string) error {
 }
 
 func (d *SimDisk) Rename(o, n string) error {
+	if d.Real() && strings.HasPrefix(o, d.realDir+"/") {
+		d.c.Event("disk.Rename(<temp file>,%s)", n) // real temp names differ from run to run
+		// a temporary file created by CreateTempReal is renamed over a simulated name
+		b, err := os.ReadFile(o)
+		if err != nil {
+			return err
+		}
+		os.Remove(o)
+		if d.TearAt >= 0 && len(b) > d.TearAt {
+			b = b[:d.TearAt]
+			d.c.C["fault.torn_write"]++
+		}
+		d.Set(n, b)
+		return nil
+	}
 	d.c.Event("disk.Rename(%s,%s)", o, n)
 	b, ok := d.Get(o)
 	if !ok {
